@@ -1278,7 +1278,7 @@ def execute_pool(script, run, env):
                         if after_fault else "", err))
         return
     run.event(0, "pmap", "n=%d nproc=%d cs=%d" % (n, nproc, chunksize), "ok",
-              sdigest(adigest([np.asarray(x) if not isinstance(x, tuple) else tuple(np.asarray(y) for y in x) for x in got]))
+              sdigest(adigest([(None if x is None else np.asarray(x)) if not isinstance(x, tuple) else tuple(np.asarray(y) for y in x) for x in got]))
               if isinstance(got, list) else repr(type(got)))
     if judge:
         run.checks += 1
